@@ -56,6 +56,30 @@ CHECKS = {
             "1-6 tasks first-use one keyspace name concurrently through the write path, the ConsistencyService/ReplicationService handlers and the repair path, with seeded offsets, storage latency and a cooperative delay between lookup and insert; every acknowledged mutation must be in the set a later lookup serialises, set == store, and all handed-out mailboxes must reach the same set.",
             "One OS thread (await-point interleavings). The handle/poller call sites are re-issued by the harness with the same statements.",
             "DESIGN.md section 10 C18"),
+    "C01": ("E2", "exploration",
+            "2-5 complete nodes (real store, RPC stack over simulated TCP/HTTP2, clock, selector, membership watcher) under seeded operations and faults (holds, crash/restart, lagging/partial membership views, replayed replication messages, clock skew/jumps, storage failures/latency, cooperative delays inside repair); then constructed quiescence and the real repair path for every ordered pair in seeded order; every node's store must equal the last-writer-wins documents.",
+            "chitchat is a stub (harness membership views); recoverable network faults only; SimStorage; all operations within one forgiveness period (validated).",
+            "DESIGN.md section 10 C01"),
+    "C06": ("E2", "exploration",
+            "Same cluster engine; the oracle runs inside the issuing host at the instant put/put_many/del/del_many returns and reads every node's store: Ok => the level's required number of distinct other holders (computed over the issuer's view, weakest view during the call); ConsistencyFailure => responses < required, responses <= holders, local write in place; closing exchanges replicate it everywhere.",
+            "Holder = store holds the mutation or a newer one for every id. Overlapping identical deletes by one node are skipped (indistinguishable in the store log).",
+            "DESIGN.md section 10 C06"),
+    "C12": ("E2", "fault_enumeration",
+            "Per message value: fidelity through the real client/server; EVERY single-bit flip, EVERY truncation, extensions 1..16 and EVERY length below the fixed-size root with a correct checksum at DataView::using (the decision point of both directions); a seeded sample of the same damaged frames through the network as raw HTTP/2 requests and impostor-service replies.",
+            "Frames > 1 KiB: 4096 seeded flips / 1024 truncations instead of all. Corruption at the frame layer, not TCP.",
+            "DESIGN.md section 10 C12"),
+    "C13": ("E2", "fault_enumeration",
+            "Every add/remove history over {A,B,C} up to length 4 (quick) / 5 (thorough) enumerated completely on a running server, all four (service,message) pairs probed after every step through the real client over simulated TCP; plus seeded longer histories with concurrent probes.",
+            "Probes are sequenced after each registry change.",
+            "DESIGN.md section 10 C13"),
+    "C14": ("E2", "exploration",
+            "Waves of concurrent requests with unique ids, payload sizes, handler delays and client timeouts over simulated TCP with timed hold/release, partition/repair (mid-stream) and server kill+restart; results checked against the handler's execution log: right reply or Connection/Timeout error, at most one execution, no swapped replies, timeouts honoured.",
+            "Black-holed requests without a timeout are abandoned by the harness after 30 simulated s (the statement promises no bound for them).",
+            "DESIGN.md section 10 C14"),
+    "C19": ("E2", "exploration",
+            "Sender state built through the real actor (0..5000 entries, 1-254 origins, both sources, hour-scale spreads, optional purge) and fetched by the real ReplicationClient::get_state over simulated TCP/HTTP2; received set compared by listing, a will_apply probe grid and third-party diffs; garbage arm (own process each): impostor peer answers with an undecodable nested state, get_state must return Err.",
+            "Mutated nested states that happen to stay well-formed are not judged.",
+            "DESIGN.md section 10 C19"),
 }
 
 NOT_APPLICABLE = {
